@@ -63,6 +63,14 @@ func (fr *frame) asValue(v Val, st *State) string {
 		if len(v.P.Path) == 0 && v.P.Global == "" {
 			return v.P.Ref
 		}
+		// pointer to a field whose type is opaque (e.g. &ks.mtx): only its identity matters; it is encoded as a
+		// negative number, disjoint from every cell reference and injective in (cell, field)
+		if len(v.P.Path) == 1 && v.P.Path[0].SI != nil && v.P.Global == "" {
+			fs := fr.ft.g.reg.SortOf(v.P.Ty)
+			if fr.ft.g.reg.structs[fs] == nil && !isNilable(fs) && fs != "Bool" && fs != "Bytes" {
+				return fmt.Sprintf("(- (- (* %s 64)) %d)", v.P.Ref, v.P.Path[0].Field+1)
+			}
+		}
 		fr.ft.unsupported("interior pointer used as a value in %s", fr.fn)
 		return "0"
 	}
@@ -443,6 +451,24 @@ func (fr *frame) binop(x *ssa.BinOp, st *State, reach string) {
 }
 
 func (fr *frame) cmp(op, l, r, s string) string {
+	if s == "Str" {
+		// lexicographic order on strings: an uninterpreted strict order (no contract here depends on its properties)
+		g := fr.ft.g
+		if !g.zeroFns["strlt"] {
+			g.zeroFns["strlt"] = true
+			g.reg.decls = append(g.reg.decls, "(declare-fun strlt (Str Str) Bool)")
+		}
+		switch op {
+		case "<":
+			return "(strlt " + l + " " + r + ")"
+		case ">":
+			return "(strlt " + r + " " + l + ")"
+		case "<=":
+			return "(not (strlt " + r + " " + l + "))"
+		case ">=":
+			return "(not (strlt " + l + " " + r + "))"
+		}
+	}
 	if s != "Int" {
 		fr.ft.unsupported("ordered comparison on sort %s in %s", s, fr.fn)
 		return "false"
